@@ -260,7 +260,18 @@ def main(ctx: Ctx) -> int:
         if len(net.reaction_list) != len(case["declared"]):
             ctx.violation(f"{pid}|Read|count", f"{len(case['declared'])} data lines gave {len(net.reaction_list)} reactions", {"files": case["files"]})
             continue
-        for phase in (0, 1, 2):
+        for phase in (0, 1, 2, 3):
+            if phase == 3:
+                # one reaction is REMOVED (nothing else): the others keep the indices their files gave them, and a modifier keyed by such an
+                # index still replaces exactly that reaction
+                if not (ci % 2 == 0 and len(case["declared"]) >= 2 and any(dd["idx"] > len(case["declared"]) for dd in case["declared"][1:])):
+                    continue
+                net.remove_reaction(0)
+                cov["removal_then_modifier_cases"] = cov.get("removal_then_modifier_cases", 0) + 1
+                decl3 = list(case["declared"][1:])
+                mods3 = {next(dd["idx"] for dd in reversed(decl3) if dd["idx"] > len(case["declared"])): "6.6e-7 * zeta"}
+                net.rate_modifier = dict(mods3)
+                case = dict(case, declared=decl3, mods=mods3, files=case["files"] + [("edit", f"first reaction removed, rate_modifier {mods3}")])
             if phase == 2:
                 # the network is EDITED (a reaction without index appended), re-indexed explicitly, and modifiers are then given by the new
                 # indices -- one of them a number that was a FILE index of another reaction before: exactly the reactions that carry those
